@@ -60,7 +60,7 @@ def term_refs(t, acc=None):
     k = t["t"]
     if k in ("var", "dvar"):
         acc.add((k, t["i"]))
-    elif k in ("attr", "index", "call"):
+    elif k in ("attr", "index", "call", "symcall"):
         term_refs(t["of"], acc)
         for a in t.get("args", []):
             if isinstance(a, dict) and "t" in a:
@@ -188,6 +188,8 @@ class Oracle:
             return self.term(t["of"], s)[t["key"]]
         if k == "call":
             return getattr(self.term(t["of"], s), t["name"])(*t["args"])
+        if k == "symcall":
+            return self.term(t["of"], s) // 2  # sf_half(n): falsy for 0 and 1
         raise ValueError(k)
 
     def locals_assignments(self, locals_, s):
@@ -325,7 +327,19 @@ class Builder:
         return self.dvar_nodes[i]
 
     def term(self, t):
+        # a term (or an atom, see cond) that carries a "share" index is built once per query: its occurrences are
+        # one krrood expression object, as in `f = x.a; or_(f, f == 0)`
+        if "share" in t:
+            key = ("term", t["share"])
+            if key not in self.shared_nodes:
+                self.shared_nodes[key] = self._term(t)
+            return self.shared_nodes[key]
+        return self._term(t)
+
+    def _term(self, t):
         k = t["t"]
+        if k == "symcall":
+            return self.hooks["build_symterm"](t["name"], self.term(t["of"]))
         if k == "var":
             return self.var(t["i"])
         if k == "dvar":
@@ -347,6 +361,17 @@ class Builder:
         raise ValueError(k)
 
     def cond(self, c):
+        from krrood.entity_query_language import entity as E
+        from krrood.entity_query_language.predicate import HasType
+
+        if "share" in c:
+            key = ("cond", c["share"])
+            if key not in self.shared_nodes:
+                self.shared_nodes[key] = self._cond(c)
+            return self.shared_nodes[key]
+        return self._cond(c)
+
+    def _cond(self, c):
         from krrood.entity_query_language import entity as E
         from krrood.entity_query_language.predicate import HasType
 
